@@ -163,10 +163,14 @@ func (s *Linear) Nice(o TickOptions) {
 	}
 
 	firstN, lastN, spacing := s.spacingAtLevel(level, true)
-	if math.IsInf(spacing, 0) {
-		// No finite tick spacing satisfies o.
+	min, max := firstN*spacing, lastN*spacing
+	slack := (s.Max - s.Min) * 1e-10
+	if math.IsInf(spacing, 0) || min > s.Min+slack || max < s.Max-slack {
+		// No usable tick spacing satisfies o: either the
+		// spacing overflowed, or it is so large that
+		// dividing the bounds by it underflowed to zero.
 		return
 	}
-	s.Min = firstN * spacing
-	s.Max = lastN * spacing
+	s.Min = min
+	s.Max = max
 }
